@@ -8,6 +8,7 @@
            | ["vaultClosed"] | ["enter", root] | ["coreEnter"] | ["coreEnd", how]
            | ["rootStopping", root, fail] | ["rootEnd", root, how]
            | ["subSpawn", i, kind] | ["subStopping", i, fail] | ["subGone", i] | ["subCancel", i] | ["withdraw", i, ok] | ["subEnd", i, how]
+           | ["orchStopPingers"] (the second of the orchestrator's two exit stops, since /repo 26a293c)
            | ["workerStart", w, owner] | ["workerEnd", w, how] | ["daemonSpawn", d] | ["daemonExit", d]
            | ["waiterEnd"] | ["orphan"] | ["orphanEnd"] | ["act", actor] | ["rtStopRoots"] | ["rtCancel"] | ["rtHungWait"]
            | ["rtStopHung"] | ["rtCStopHung"] | ["rtExit", res] | ["hungFail"]
@@ -103,6 +104,7 @@ def obsOf? (xs : List Json) : Option Obs :=
   | [.str "subCancel", i] => do pure (.lab (.subCancel (← jNat? i)))
   | [.str "withdraw", i, .bool ok] => do pure (.lab (.withdraw (← jNat? i) ok))
   | [.str "subEnd", i, .str h] => do pure (.lab (.subEnd (← jNat? i) (← howOf? h)))
+  | [.str "orchStopPingers"] => some (.lab .orchStopPingers)
   | [.str "workerStart", w, o] => do pure (.workerStartAs (← jNat? w) (← taskOf? o))
   | [.str "workerEnd", w, .str h] => do pure (.lab (.workerEnd (← jNat? w) (← wsOf? h)))
   | [.str "daemonSpawn", d, .bool c] => do pure (.daemonSpawnAs (← jNat? d) c)
@@ -160,7 +162,11 @@ def stateJson (cfg : Cfg) (s : State) : Json :=
     ("subs", .arr ((List.range s.nSubs).map (fun i => Json.str (tsName (s.st (.sub i))))).toArray),
     ("liveWorkers", .arr (((List.range s.nWorkers).filter (workerLive s)).map (fun (w : Nat) => Json.num w)).toArray),
     ("runningDaemons", .arr (((List.range s.nDaemons).filter (fun d => s.dm d == .running)).map (fun (d : Nat) => Json.num d)).toArray),
-    ("waiter", .bool s.waiter), ("orphans", .num s.orphans), ("killed", .bool s.killed), ("killerCut", .bool s.killerCut)]
+    ("waiter", .bool s.waiter), ("orphans", .num s.orphans), ("killed", .bool s.killed), ("killerCut", .bool s.killerCut),
+    ("orchPing", .bool s.orchPing), ("orchErr", .bool s.orchErr),
+    ("subKinds", .arr ((List.range s.nSubs).map (fun i => Json.str (match s.kind i with
+        | .watcher => "watcher" | .peerWatcher => "peerWatcher" | .pinger => "pinger"))).toArray),
+    ("subCreq", .arr (((List.range s.nSubs).filter (fun i => s.creq (.sub i))).map (fun (i : Nat) => Json.num i)).toArray)]
 
 def reject (cfg : Cfg) (i : Nat) (reason : String) (lab : Json) (s : State) : Json :=
   ok (Json.mkObj [("accepted", .bool false), ("index", .num i), ("reason", .str reason),
